@@ -5,11 +5,16 @@ PROP = "C02"
 
 
 def main():
-    return G.main(PROP, dict(verus_units=[("compute_state_closure", 17)],
+    return G.main(PROP, dict(verus_units=[("compute_state_closure", 17), ("nfa_to_dfa_targets", 11)],
                              trusted=G.COMMON_TRUSTED + [
                                  "Verus unit compute_state_closure (real NFA::compute_state_closure and next_empty_states, rules subst R7 R10 R14 R16): assumed specs of <&HashSet as IntoIterator>::into_iter "
                                  "(length, no duplicates, completeness; soundness is PROVED from these by a pigeonhole lemma) and of HashSet::clone; obeys_key_model::<StateIdx>() (axiom); "
-                                 "the initial work list `states.iter().copied().collect()` is a trusted R7 fragment; precondition wf_nfa (empty-transition targets in range) is not verified at the callers"],
+                                 "the initial work list `states.iter().copied().collect()` is a trusted R7 fragment; precondition wf_nfa (empty-transition targets in range) is not verified at the callers",
+                                 "Verus unit nfa_to_dfa_targets (rule B1 with `upto`: two blocks of nfa_to_dfa verified as function bodies under template-supplied headers, cut before the closure computation): "
+                                 "the loop headers, the collection of the per-state transition maps before these blocks, and everything after the cut (closure, state map, DFA builder calls) are NOT verified; "
+                                 "same assumed into_iter specification and key-model axiom as above"],
                              assumptions=G.COMMON_ASSUMPTIONS + [
                                  "proved for compute_state_closure: the result contains the given states, is closed under empty transitions, every member is reachable from the given states by empty transitions "
-                                 "(so it is exactly the epsilon-closure), all members are states of the automaton, and the work-list loop terminates"]))
+                                 "(so it is exactly the epsilon-closure), all members are states of the automaton, and the work-list loop terminates",
+                                 "proved for nfa_to_dfa (unit nfa_to_dfa_targets): the target set of a character transition of the subset construction is EXACTLY its own targets plus the targets of every range "
+                                 "transition containing the character plus the `_` targets; the target set of a range transition is EXACTLY its own targets plus the `_` targets"]))
